@@ -16,7 +16,7 @@ pub fn meta() -> Meta {
         rule: "exhaustive over all 65536 codes: u16::from(TYPE::from(c)) == c, TYPE::from(c) is the named variant for the 41 IANA numbers of an independent table (NULL = 10 included) and \
 Unknown(c) otherwise; QTYPE::try_from(c) is Ok and round-trips for supported codes and 251..255 and Err otherwise; CLASS for {1,2,3,4,254}; QCLASS additionally 255. Matching matrix: for \
 every supported type code (and several unknown ones) a record obtained both by construction and by parsing a reference-encoded message is matched against every question type \
-{TYPE(t') for all supported t', ANY, MAILB}: expected ANY or t'==t or MAILB with t in {MB,MG,MR}; all class x qclass pairs; rdata.type_code() == TYPE::from(wire code) including NULL, unknown and empty RDATA. \
+{TYPE(t') for all supported t', ANY, MAILB}: expected ANY or t'==t or MAILB with t in {MB,MG,MR}; all class x qclass pairs, on the built record, the parsed record and the into_owned() copy of each; rdata.type_code() == TYPE::from(wire code) including NULL, unknown and empty RDATA. \
 non-trivial = every case; distinct = hash of the case",
         assumptions: &["AXFR/IXFR/MAILA matching is outside the property's quantifier"],
         exhaustive: true,
@@ -164,7 +164,10 @@ pub fn run(ctx: &mut Ctx) {
                     let parsed_pkt = Packet::parse(&bytes).map_err(|e| format!("{:?}", e))?;
                     let parsed = parsed_pkt.answers.first().ok_or("no answer")?.clone();
                     let mut probs: Vec<String> = Vec::new();
-                    for (route, rr) in [("built", &built), ("parsed", &parsed)] {
+                    // the owned copies must report the same type and match the same questions
+                    let built_owned = built.clone().into_owned();
+                    let parsed_owned = parsed.clone().into_owned();
+                    for (route, rr) in [("built", &built), ("parsed", &parsed), ("built-owned", &built_owned), ("parsed-owned", &parsed_owned)] {
                         let tc = rr.rdata.type_code();
                         if tc != TYPE::from(*code) {
                             probs.push(format!("type-code-of-record:{}:{}", route, match rr.rdata { RData::NULL(..) => "NULL-variant", RData::Empty(_) => "Empty-variant", _ => "typed" }));
@@ -190,7 +193,7 @@ pub fn run(ctx: &mut Ctx) {
                     Err(pn) => ctx.panic_violation("matching", &pn, case()),
                     Ok(Err(e)) => ctx.notes.push(format!("match case skipped: {}", e)),
                     Ok(Ok(probs)) => {
-                        ctx.add("match_evaluations", 2 * (qtypes.len() as u64 + 6));
+                        ctx.add("match_evaluations", 4 * (qtypes.len() as u64 + 6));
                         let mut seen = std::collections::HashSet::new();
                         for pr in probs {
                             if seen.insert(pr.clone()) {
